@@ -931,6 +931,8 @@ class InspectFunction(object):
             )
             inner_intro = _introspect(called_fun, arg_ctx, gctx, new_call_stack)
             inner_intro = inner_intro._replace(store_path=store_path)
+            # Like a data function, this call produces the path for the loads that follow in this evaluation
+            gctx.resolved_references[store_path] = inner_intro.fun_return_sig
             return inner_intro
 
         # Normal function call.
